@@ -310,6 +310,14 @@ func c14Gen(r *RNG, id string) *Case {
 		rows = out
 		c.Tag("feature-rows-shuffled")
 	}
+	if len(rows) > 1 && r.Chance(1, 60) {
+		// a row of another type with an attribute of 70 000 characters, between the coding rows: a line longer than
+		// bufio.Scanner's default token (everything behind it used to be lost)
+		at := r.Range(1, len(rows)-1)
+		long := gffRow{typ: "region", start: 1, end: L, strand: "+", phase: ".", id: "note1", name: strings.Repeat("x", 70000)}
+		rows = append(rows[:at:at], append([]gffRow{long}, rows[at:]...)...)
+		c.Tag("gff-line-longer-than-64KiB")
+	}
 	gffTxt, gffProto := renderGFF(rows, genome, true, r.Bool(), refName)
 	annMode := r.Chance(1, 4) // no --reference: the reference comes from the annotation (ORIGIN / ##FASTA)
 	m := buildMSA(r, genome, r.Range(1, 5), r.Bool() && !annMode, r.Bool())
